@@ -24,8 +24,22 @@ def link_repo():
         if os.path.islink(ln) or os.path.exists(ln):
             os.unlink(ln)
         os.symlink(want, ln)
+        invalidate_repo_builds()
     except OSError:
         pass
+
+
+def invalidate_repo_builds():
+    """The link now names another copy of the repository. Cargo decides freshness of a path
+    dependency by file times, so a copy with OLDER files would be taken for already built (and the
+    previous copy's code would be used): drop the fingerprints of the repository's crates."""
+    import shutil
+    for root, dirs, _files in os.walk(BUILD):
+        if os.path.basename(root) == '.fingerprint':
+            for d in dirs:
+                if d.startswith('taskchampion-sync-server') or d.startswith('taskchampion_sync_server') or d.startswith('vk-') or d.startswith('vs-') or d.startswith('vreplay-'):
+                    shutil.rmtree(os.path.join(root, d), ignore_errors=True)
+            dirs[:] = []
 
 
 link_repo()
